@@ -7,7 +7,7 @@ from sa.cfg import cfg_of
 from sa.flow import show, sig, subterms
 from sa.model import AnalysisError, norm, parent, walk_no_nested
 
-from .common import include_rules, alts, callers_of, commands, is_call, is_plain_iter, need, prov, reach_from
+from .common import lazy_reuse_rule, include_rules, alts, callers_of, commands, is_call, is_plain_iter, need, prov, reach_from
 
 
 def flatten_func(p):
@@ -352,6 +352,8 @@ def run(report, p):
             r6.check(False, vf, b, f"a traversed folder counts as new unless it is in `{norm(member.comparators[0])}`, which holds the recorded paths and only the immediate parent folder of each: every folder two or more levels above a recorded file (and every folder when the history is a packing list, which has no directory records) makes the unchanged tree exit 21", construct="folders judged against recorded paths + one dirname level")
         else:
             raise AnalysisError(f"{vf.loc(b)}: the new-files counter is raised for folders under a membership test whose set `{norm(member.comparators[0])[:60]}` is not understood (ancestor closure?)")
+
+    lazy_reuse_rule(report, p, 'R18.8', [need(cmds, 'flatten').qual, need(cmds, 'verify').qual], 'flatten / verify -pl')
 
     # ---- rules shared with other properties (same mechanism, same rule, reported under every property it can break)
     include_rules(report, p, 'c03', ['R3.11'], 'flatten and verify -pl log every record they handle')
